@@ -39,12 +39,15 @@ MSG_CHAINS = {
     'nk1.nk1_2.xpn_1.fn_1': ('nk1', 'nk1_2', 'xpn_1', 'fn_1'),
     'group': ('adt_a01_insurance', 'in1', 'in1_2', 'ce_1'),
     'pid.pid_1': ('pid', 'pid_1'),
+    'zzz.zzz_2': ('zzz', 'zzz_2'),
+    'pd1.pd1_3.xon_1': ('pd1', 'pd1_3', 'xon_1'),
 }
 # where the value lands: (segment path for the reference model)
 MSG_TARGET = {
     'pid.pid_3': ('PID', 3, None, None), 'pid.pid_3.cx_4': ('PID', 3, 4, None), 'pid.pid_3.cx_4.hd_1': ('PID', 3, 4, 1),
     'long': ('PID', 3, 4, 1), 'positional': ('PID', 3, 4, 2), 'PID.PID_5.XPN_2': ('PID', 5, 2, None), 'evn.evn_2': ('EVN', 2, None, None),
     'nk1.nk1_2.xpn_1.fn_1': ('NK1', 2, 1, 1), 'group': ('IN1', 2, 1, None), 'pid.pid_1': ('PID', 1, None, None),
+    'zzz.zzz_2': ('ZZZ', 2, None, None), 'pd1.pd1_3.xon_1': ('PD1', 3, 1, None),
 }
 SEG_CHAINS = {
     'pid_3': ('pid_3',), 'pid_3.cx_4': ('pid_3', 'cx_4'), 'pid_3.cx_4.hd_1': ('pid_3', 'cx_4', 'hd_1'),
